@@ -156,7 +156,10 @@ func (e *Exec) enterHeader(st *State, fr *Frame, h, prev *ssa.BasicBlock) (bool,
 	}
 	li := e.loops(fr.Fn)
 	key := loopKey{fr.Fn, li.ordinal[h]}
-	if !isBack && (e.cutHeaders[key] || e.W.hasLoopClauses(fr.Fn, li.ordinal[h])) && !e.W.forceUnroll(fr.Fn, li.ordinal[h]) {
+	// a loop with user clauses is cut at its header when its function is the one under verification; inside an
+	// expanded callee it is first tried unrolled (its clauses speak about the callee's own entry state) and cut only
+	// when its trip count turns out to be symbolic
+	if !isBack && (e.cutHeaders[key] || (fr.Depth == 0 && e.W.hasLoopClauses(fr.Fn, li.ordinal[h]))) && !e.W.forceUnroll(fr.Fn, li.ordinal[h]) {
 		e.startCut(st, fr, h, prev)
 		return !st.Dead, nil
 	}
